@@ -11,7 +11,7 @@ from __future__ import annotations
 import ast
 
 from ..pattern import find, is_name, match
-from ..project import AnalysisError, norm
+from ..project import call_name, AnalysisError, norm
 
 VALUES = "tpmstream.spec.common.values"
 BASE = "tpmstream.spec.common.base_type"
@@ -121,20 +121,31 @@ def check(run, project, L, rule="G"):
 
     # ---- G4 by_value: first member in iteration order that contains / equals the value
     f = _fn(vals, "tpm_enum._tpm_enum.by_value")
-    loops = [n for n in f.body if isinstance(n, ast.For)]
-    if len(loops) != 1 or not is_name(loops[0].iter, f.args.args[0].arg):
-        raise AnalysisError("model guard G4: by_value does not iterate the class")
-    v = f.args.args[1].arg
-    a = loops[0].target.id
-    body = loops[0].body
-    ok = (len(body) == 1 and isinstance(body[0], ast.If)
-          and norm(body[0].test) == f"isinstance({a}, NamedRange) and {v} in {a}"
-          and norm(body[0].body[0]) == f"return {a}.by_number({v})"
-          and len(body[0].orelse) == 1 and isinstance(body[0].orelse[0], ast.If)
-          and norm(body[0].orelse[0].test) in (f"{a} == {v}", f"{v} == {a}")
-          and norm(body[0].orelse[0].body[0]) == f"return {a}")
-    if not ok:
-        raise AnalysisError("model guard G4: by_value has an unrecognised shape")
+    from .. import paths
+    from .outcomes import View, label
+    c_, v = f.args.args[0].arg, f.args.args[1].arg
+    ps = paths.summarise(vals, f)
+    tails = [p for p in ps if not any(a_.startswith("loop@") for a_, _v, _ in p.cond)]
+    if len(tails) != 1 or tails[0].end != "raise" or (call_name(tails[0].value) if tails[0].value is not None else None) != "ValueError":
+        raise AnalysisError("model guard G4: by_value no longer raises ValueError when no member matches")
+    lps = [(e, n) for k, e, n in tails[0].effects if k == "loop"]
+    if len(lps) != 1 or paths.text(lps[0][0]) != c_ or not isinstance(lps[0][1].target, ast.Name) or \
+            [k for k, _e, _n in tails[0].effects if k != "loop"]:
+        raise AnalysisError("model guard G4: by_value does not iterate the class (and nothing else)")
+    a = lps[0][1].target.id
+    N, I = f"isinstance({a}, NamedRange)", f"{v} in {a}"
+    its = tails[0].loops[id(lps[0][1])]
+    atoms = {a_ for p in its for a_, _v, _ in p.cond}
+    E = f"{a} == {v}" if f"{a} == {v}" in atoms else f"{v} == {a}"
+    rows = [({N: True, I: True}, f"return {a}.by_number({v})"), ({E: True}, f"return {a}")]
+    for p in its:
+        want = paths.decide(rows, "next member", View(p))
+        got = f"return {p.value_text()}" if p.end == "return" else "next member" if p.end in ("fall", "continue") else p.end
+        if want != {got}:
+            raise AnalysisError(f"model guard G4: by_value does `{got}` for a member with [{label(p)}], the model assumes "
+                                f"{' or '.join(sorted(want))}")
+    if len(its) < 3:
+        raise AnalysisError("model guard G4: by_value has fewer than three member outcomes")
     run.ob(rule, True, "G4 by_value = first member (getmembers order) containing/equal to the value")
 
     # ---- G5 tpm_bitfield: masks are the public non-routine attributes, Bit.__get__ masks the value
